@@ -369,7 +369,8 @@ func Gen(r *hx.Run, focus string) {
 				w.Bind(i, nil, localPorts[r.R.Intn(2)])
 			case 2:
 				if v6s {
-					w.Bind(i, [][]byte{v6a, mapped(a1), nil}[r.R.Intn(3)], localPorts[r.R.Intn(2)])
+					// (a dual-stack socket bound to the v4-mapped wildcard is an IPv4-only binding)
+					w.Bind(i, [][]byte{v6a, mapped(a1), nil, mapped([]byte{0, 0, 0, 0})}[r.R.Intn(4)], localPorts[r.R.Intn(2)])
 				} else {
 					w.Bind(i, [][]byte{a1, a2, a3}[r.R.Intn(3)], localPorts[r.R.Intn(2)])
 				}
@@ -438,7 +439,7 @@ func Gen(r *hx.Run, focus string) {
 						dport = a.Port
 					}
 				}
-				if r.R.Intn(5) == 0 {
+				if r.R.Intn(4) == 0 {
 					dsts := [][]byte{v6a, {0xfe, 0x80, 0, 0, 0, 0, 0, 0, 0, 0, 0, 0, 0, 0, 0, 7}}
 					w.Inject(1, "6", v6r, dsts[r.R.Intn(2)], []uint16{9000, 9001}[r.R.Intn(2)], dport, delta, payload, splitMode(r))
 				} else {
@@ -650,9 +651,14 @@ func GenEcho(r *hx.Run) {
 				fl := 0
 				if len(msg) > 8 && r.R.Intn(3) == 0 {
 					fl = 8 + r.R.Intn(len(msg)-8+1) // any split point behind the echo header, odd ones included
+				} else if len(msg) > 8 && r.R.Intn(5) == 0 {
+					// the view boundary inside the 8-byte echo header: the stack may ignore such a request, but a reply,
+					// if there is one, mirrors the request like any other
+					fl = 1 + r.R.Intn(7)
+					r.Count("echo6.split-inside-header")
 				}
 				own := string(dst) == string(v6a)
-				w.Echo6(1, v6r, dst, msg, fl, own && !weird)
+				w.Echo6(1, v6r, dst, msg, fl, own && !weird && (fl == 0 || fl >= 8))
 			} else {
 				dsts := [][]byte{a1, a2, a1, a3, {10, 0, 0, 77}, {10, 0, 1, 77}}
 				dst := dsts[r.R.Intn(len(dsts))]
